@@ -37,7 +37,6 @@ def parseDecimal (s : Str) : Option (Bool × Str × Int) :=
     if !rest.isEmpty then none else
     some (neg, dropLeadingZeros (ip ++ fp), e - (fp.length : Int))
 
-def intStr (i : Int) : Str := (toString i).toList
 
 /-- `str(Decimal)` -/
 def decStr (neg : Bool) (digits : Str) (exp : Int) : Str :=
@@ -65,15 +64,18 @@ def nm (s : Str) (strict : Bool) : NumRes :=
     let t := decStr neg ds e
     if strict && t.length > 16 then .maxLen else .ok t
 
+/-- optional sign of `int(str)` -/
+def signSplit (t : Str) : Bool × Str :=
+  match t with
+  | '-' :: r => (true, r)
+  | '+' :: r => (false, r)
+  | _ => (false, t)
+
 def parseInt (s : Str) : Option Int :=
-  let t := stripBy isIntWS s
-  let (neg, ds) := match t with
-    | '-' :: r => (true, r)
-    | '+' :: r => (false, r)
-    | _ => (false, t)
-  if ds.isEmpty || !ds.all isDig then none else
-  let v : Int := natOf ds
-  some (if neg then -v else v)
+  let p := signSplit (stripBy isIntWS s)
+  if p.2.isEmpty || !p.2.all isDig then none else
+  let v : Int := natOf p.2
+  some (if p.1 then -v else v)
 
 def si (s : Str) (strict : Bool) : NumRes :=
   if s.isEmpty then .ok [] else
